@@ -247,7 +247,7 @@ theorem G0_axis_length [CharZero K] (o : Ops K) (i : In K) (hgrid : o.nphi * i.d
   generalize o.sum (d_l_d_phi o i) = S
   field_simp
 
-theorem Bbar_eq (o : Ops K) (i : In K) : Bbar o i = i.spsi * i.B0 := rfl
+theorem Bbar_eq (o : Ops K) (i : In K) : Bbar o i = i.spsi * i.B0 := by unfold Bbar; ring
 
 theorem X1c_eq (o : Ops K) (i : In K) :
     X1c o i = i.etabar / curvature o i ∧ X1s o i = 0 ∧
